@@ -101,6 +101,8 @@ func (h *Session) printHostTable() {
 
 // Dirty returns true if the host was updated by Parse and a notification is due.
 func (host *Host) Dirty() bool {
+	host.MACEntry.Row.RLock()
+	defer host.MACEntry.Row.RUnlock()
 	return host.dirty
 }
 
